@@ -26,10 +26,23 @@ fn patterns() -> Vec<(&'static str, Vec<(&'static str, &'static str)>)> {
         // shortcut of a sort or merge covers (run only with the fixed placements of `long_placements`)
         ("long25", (0..25).map(|i| if i == 12 { ("a", "c1") } else if i % 2 == 0 { ("a", "c0") } else { ("b", "c0") }).collect()),
         ("long41", (0..41).map(|i| if i % 10 == 9 { ("b", "c1") } else if i % 3 == 0 { ("b", "c0") } else { ("a", "c0") }).collect()),
+        // many segments: segment ids cross a power of ten (00009 -> 00010), run with `many_placements`
+        ("segs36", (0..36).map(|i| if i % 6 == 5 { ("b", "c0") } else { ("a", "c0") }).collect()),
     ]
 }
 
 const N_SHORT: usize = 3;
+const N_LONG: usize = 2;
+
+/// a FLUSH after every third STORE (12 segments), plain and followed by a restart
+fn many_placements(n: usize) -> Vec<Vec<(usize, L)>> {
+    let every3: Vec<(usize, L)> = (0..n).filter(|i| i % 3 == 2).map(|i| (i, L::Flush)).collect();
+    let mut with_restart = every3.clone();
+    let last = with_restart.len() - 1;
+    with_restart[last] = (n - 1, L::Restart);
+    // the restart replaces the last flush: shutdown flushes the remaining rows
+    vec![every3, with_restart]
+}
 
 /// layouts for the long patterns: memory only, one segment, two segments, two segments compacted,
 /// one segment and a restart
@@ -180,8 +193,13 @@ pub fn check(tier: &str) -> i32 {
     }
     // long buckets, with memtables large enough to hold them
     for cfg in [SysConfig { fill_factor: 16, event_per_zone: 4, ..Default::default() }, SysConfig { fill_factor: 64, event_per_zone: 1, segments_per_merge: 2, ..Default::default() }] {
-        for (pi, (_, pat)) in patterns().iter().enumerate().skip(N_SHORT) {
+        for (pi, (_, pat)) in patterns().iter().enumerate().skip(N_SHORT).take(N_LONG) {
             for pl in long_placements(pat.len()) {
+                cases.push(Case { cfg: cfg.clone(), pat: pi, place: pl });
+            }
+        }
+        for (pi, (_, pat)) in patterns().iter().enumerate().skip(N_SHORT + N_LONG) {
+            for pl in many_placements(pat.len()) {
                 cases.push(Case { cfg: cfg.clone(), pat: pi, place: pl });
             }
         }
